@@ -618,7 +618,11 @@ func (w *World) loopTick(h *keyper.VerifEonPubKeyHandler, op Op, ln *Line) {
 	w.rec.slow = ch
 	w.rec.aborted = 0
 	w.rec.mu.Unlock()
-	go w.rec.consume(ch, loopBusy, stop)
+	consumerDone := make(chan struct{})
+	go func() {
+		defer close(consumerDone)
+		w.rec.consume(ch, loopBusy, stop)
+	}()
 	ctx, cancel := context.WithCancel(context.Background())
 	done := make(chan string, 1)
 	var lerr error
@@ -667,6 +671,13 @@ wait:
 		}
 	}
 	close(stop)
+	// the consumer may have received the last key without having recorded it yet
+	select {
+	case <-consumerDone:
+	case <-time.After(watchdog):
+		ln.Panic = "hang"
+		w.Dead = true
+	}
 	w.rec.mu.Lock()
 	w.rec.slow = nil
 	aborted := w.rec.aborted
